@@ -211,6 +211,14 @@ def check_case(case):
                     if key is not None and isinstance(d[names[i]], dict):
                         d[names[i]]["prune_states"] = key
                 try:
+                    if label == "permuted":
+                        # this order reaches the driver the way the command line feeds it: as the text of an
+                        # input file read back by the repository's reader (when the batch has such a text)
+                        from harness import sut as _sut
+                        loaded = _sut.file_roundtrip(d)
+                        if loaded is not None:
+                            d = loaded
+                            v.cls("batch_read_from_an_input_file")
                     results[label] = (order, r.conditionalrewards.run_games(d))
                 except (BudgetExceeded, SkipSolve):
                     raise
